@@ -253,7 +253,9 @@ func (db *DB) calculateEndOffset(
 			); err != nil {
 				return 0, 0, err
 			}
-			ts = approxStamp.Lower
+			// The stamp is taken from an inexact reference, so the next sample (the
+			// first one kept) is its upper bound.
+			ts = approxStamp.Upper
 		} else if !approxDist.StartExact {
 			// If start is inexact, we must use the lower approximation. (Note that the
 			// start is only inexact because of domain cutoff).
